@@ -1302,6 +1302,149 @@ impl CompositionGraph {
     }
 }
 
+/// Verification hooks (compiled only with `--cfg wac_verif`): an add-only report of violated internal
+/// invariants and a structural dump, used to replay solver counterexamples natively.
+#[cfg(wac_verif)]
+impl CompositionGraph {
+    /// Returns the list of violated internal invariants (empty when the graph is consistent).
+    pub fn verif_invariants(&self) -> Vec<String> {
+        use petgraph::visit::EdgeRef as _;
+        let mut bad = Vec::new();
+        for index in self.graph.node_indices() {
+            let node = &self.graph[index];
+            let i = index.index();
+            // package ids of live nodes are live
+            if let Some(p) = node.package {
+                match self.packages.get(p.index) {
+                    Some(e) if e.generation == p.generation && e.package.is_some() => {}
+                    _ => bad.push(format!("node {i}: dangling package id")),
+                }
+            }
+            let incoming: Vec<_> = self
+                .graph
+                .edges_directed(index, Direction::Incoming)
+                .map(|e| (e.source(), e.weight().clone()))
+                .collect();
+            match &node.kind {
+                NodeKind::Instantiation(satisfied) => {
+                    let mut from_edges: Vec<usize> = incoming
+                        .iter()
+                        .filter_map(|(_, w)| match w {
+                            Edge::Argument(k) => Some(*k),
+                            _ => None,
+                        })
+                        .collect();
+                    from_edges.sort();
+                    let mut dedup = from_edges.clone();
+                    dedup.dedup();
+                    if dedup.len() != from_edges.len() {
+                        bad.push(format!("node {i}: two argument edges for one argument index"));
+                    }
+                    let mut sat: Vec<usize> = satisfied.iter().copied().collect();
+                    sat.sort();
+                    if sat != dedup {
+                        bad.push(format!(
+                            "node {i}: satisfied set {sat:?} differs from incoming argument edges {dedup:?}"
+                        ));
+                    }
+                    if node.package.is_none() {
+                        bad.push(format!("node {i}: instantiation without a package"));
+                    }
+                }
+                NodeKind::Alias => {
+                    let alias_edges: Vec<_> = incoming
+                        .iter()
+                        .filter(|(_, w)| matches!(w, Edge::Alias(_)))
+                        .collect();
+                    if alias_edges.len() != 1 || incoming.len() != 1 {
+                        bad.push(format!("node {i}: alias node without exactly one incoming alias edge"));
+                    } else if !matches!(self.graph[alias_edges[0].0].item_kind, ItemKind::Instance(_)) {
+                        bad.push(format!("node {i}: alias source is not an instance"));
+                    }
+                }
+                NodeKind::Import(name) => {
+                    if self.imports.get(name) != Some(&index) {
+                        bad.push(format!("node {i}: import `{name}` missing from the import map"));
+                    }
+                }
+                NodeKind::Definition => {
+                    if self.defined.get(&node.item_kind.ty()) != Some(&index) {
+                        bad.push(format!("node {i}: definition missing from the defined map"));
+                    }
+                    if node.export.is_none() {
+                        bad.push(format!("node {i}: definition without an export name"));
+                    }
+                }
+            }
+            if !matches!(node.kind, NodeKind::Instantiation(_))
+                && incoming.iter().any(|(_, w)| matches!(w, Edge::Argument(_)))
+            {
+                bad.push(format!("node {i}: argument edge into a node that is not an instantiation"));
+            }
+            for (src, w) in &incoming {
+                if let Edge::Dependency = w {
+                    if !matches!(node.kind, NodeKind::Definition)
+                        || !matches!(self.graph[*src].kind, NodeKind::Definition)
+                    {
+                        bad.push(format!("node {i}: dependency edge between non-definitions"));
+                    }
+                }
+            }
+            if let Some(name) = &node.export {
+                if self.exports.get(name) != Some(&index) {
+                    bad.push(format!("node {i}: export `{name}` missing from the export map"));
+                }
+            }
+        }
+        for (name, index) in &self.exports {
+            if !self.graph.contains_node(*index) {
+                bad.push(format!("export `{name}` refers to a removed node {}", index.index()));
+            }
+        }
+        for (name, index) in &self.imports {
+            match self.graph.node_weight(*index) {
+                Some(n) if matches!(&n.kind, NodeKind::Import(x) if x == name) => {}
+                _ => bad.push(format!("import `{name}` refers to node {} which is not that import", index.index())),
+            }
+        }
+        for (ty, index) in &self.defined {
+            match self.graph.node_weight(*index) {
+                Some(n) if matches!(n.kind, NodeKind::Definition) && n.item_kind.ty() == *ty => {}
+                _ => bad.push(format!("defined type refers to node {} which does not define it", index.index())),
+            }
+        }
+        bad.sort();
+        bad
+    }
+
+    /// Returns a structural dump of the graph: nodes (index, kind, export) and edges (source, target, kind).
+    pub fn verif_dump(&self) -> String {
+        use petgraph::visit::{EdgeRef as _, IntoEdgeReferences as _};
+        let mut out = String::new();
+        for index in self.graph.node_indices() {
+            let n = &self.graph[index];
+            let kind = match &n.kind {
+                NodeKind::Definition => "def".to_string(),
+                NodeKind::Import(name) => format!("import({name})"),
+                NodeKind::Instantiation(s) => {
+                    let mut v: Vec<_> = s.iter().copied().collect();
+                    v.sort();
+                    format!("inst{v:?}")
+                }
+                NodeKind::Alias => "alias".to_string(),
+            };
+            out.push_str(&format!("n{} {kind} export={:?};", index.index(), n.export));
+        }
+        for e in self.graph.edge_references() {
+            out.push_str(&format!("e {}->{} {:?};", e.source().index(), e.target().index(), e.weight()));
+        }
+        let mut ex: Vec<_> = self.exports.iter().map(|(k, v)| format!("{k}={}", v.index())).collect();
+        ex.sort();
+        out.push_str(&format!("exports[{}]", ex.join(",")));
+        out
+    }
+}
+
 impl Index<NodeId> for CompositionGraph {
     type Output = Node;
 
